@@ -658,7 +658,8 @@ impl<BE: Backend + CKKSImpl<BE>> CKKSDotProductOps<BE> for Module<BE> {
         let lhr0: usize = checked_mul_ct_log_budget("dot_product_ct", a_min_lhr, b_min_lhr, a_ld, b_ld)?;
         let res_offset: usize = (lhr0 + res_log_delta).saturating_sub(dst_max_k);
         let res_log_budget: usize = checked_log_budget_sub("dot_product_ct", lhr0, res_offset)?;
-        let cnv_offset: usize = a_target_eff_k.max(b_target_eff_k) + res_offset;
+        // same placement rule as get_mul_ct_params: max(log_budget) + max(log_delta), not max(effective_k)
+        let cnv_offset: usize = a_min_lhr.max(b_min_lhr) + a_ld.max(b_ld) + res_offset;
 
         let tensor_max_k: usize = a_target_eff_k.max(b_target_eff_k);
         let tensor_layout = GLWELayout {
